@@ -284,26 +284,52 @@ impl Interner {
             ),
         })
     }
-    pub fn entries(&mut self, m: &Map) -> R {
+    pub fn tree(&mut self, m: &Map) -> Result<Vec<Ent>, String> {
         let mut v = Vec::new();
         for e in m.entries() {
             let s = e.source_location().0;
             v.push(match e.target_location() {
-                ExpansionResult::Unmodified(t) => format!("EUnmod {s} {}", t.0),
-                ExpansionResult::Rewritten(x) => self.rewritten(s, x)?,
+                ExpansionResult::Unmodified(t) => Ent::Unmod(s, t.0),
+                ExpansionResult::Rewritten(x) => self.rewritten_tree(s, x)?,
             });
         }
-        Ok(g::list(&v))
+        Ok(v)
     }
-    pub fn rewritten(&mut self, s: usize, x: &CalibrationExpansion) -> R {
-        Ok(format!(
-            "ERewr {s} {} {} {} {}",
+    pub fn rewritten_tree(&mut self, s: usize, x: &CalibrationExpansion) -> Result<Ent, String> {
+        Ok(Ent::Rewr(
+            s,
             self.calsrc(x.calibration_used())?,
             x.range().start.0,
             x.range().end.0,
-            self.entries(x.expansions())?
+            self.tree(x.expansions())?,
         ))
     }
+    pub fn entries(&mut self, m: &Map) -> R {
+        Ok(print_entries(&self.tree(m)?))
+    }
+    pub fn rewritten(&mut self, s: usize, x: &CalibrationExpansion) -> R {
+        Ok(self.rewritten_tree(s, x)?.print())
+    }
+}
+
+/// A source-map entry in the shape of the model's `entry`.
+#[derive(Clone, Debug)]
+pub enum Ent {
+    Unmod(usize, usize),
+    Rewr(usize, String, usize, usize, Vec<Ent>),
+}
+
+impl Ent {
+    pub fn print(&self) -> String {
+        match self {
+            Ent::Unmod(s, t) => format!("EUnmod {s} {t}"),
+            Ent::Rewr(s, src, lo, hi, sub) => format!("ERewr {s} {src} {lo} {hi} {}", print_entries(sub)),
+        }
+    }
+}
+
+pub fn print_entries(v: &[Ent]) -> String {
+    g::list(&v.iter().map(|e| e.print()).collect::<Vec<_>>())
 }
 
 fn scalar(t: &ScalarType) -> u64 {
